@@ -390,6 +390,16 @@ def run(chk, repo):
     chk.clauses.append('C05.j (shared R-THREAD) an option value bound to a name that is itself a CLI option carries that very option')
     optname(chk, repo, 'C05.j', ['cli.call_variant_peptide'], floor=0)
     from rules.shared import copy_own_containers
+    # C05.o: records of a transcript are de-duplicated by set identity only (hash covers the donor / accepter attributes, __eq__ alone does not)
+    chk.rule('C05.o', 'R-KEYS: VariantRecordPoolOnDisk.__getitem__ never drops a record because an `==`-equal one is already in a list', 1)
+    chk.clauses.append('C05.o records gathered for a transcript are de-duplicated through set() only: no `record in <list of records>` test (VariantRecord.__eq__ ignores the donor range / accepter, so two different symbolic-alt records at one position would collapse): adding a GVF file can only add variants')
+    gi_ = repo.func('seqvar.VariantRecordPoolOnDisk:VariantRecordPoolOnDisk.__getitem__')
+    chk.uses(gi_)
+    mem = [c for c in ast.walk(gi_.node) if isinstance(c, ast.Compare) and len(c.ops) == 1 and isinstance(c.ops[0], (ast.In, ast.NotIn))
+           and re.search(r'(series\.\w+|records|variants)$', unparse(c.comparators[0])) and not re.search(r'pointers|anno|cached', unparse(c.comparators[0]))]
+    chk.ob('C05.o', 'no membership test of a record in a list of records', gi_.where, not mem,
+           f"{[unparse(c) for c in mem]}: list membership compares with VariantRecord.__eq__ (location, ref, alt, type only): a record that differs in its donor range / accepter "
+           'from one already present is dropped, so adding a GVF file can remove or hide a variant', key=gi_.qual + '::list-membership', fn=gi_.qual)
     from rules.shared import w2f_tail_guard
     chk.clauses.append('C05.n (R-AFFINE) a W>F reassigned peptide keeps every residue behind the reassigned W (tail appended iff end < len(seq)): peptides added by the option are W>F forms of peptides of the run without it')
     w2f_tail_guard(chk, repo, 'C05.n')
